@@ -161,6 +161,7 @@ where
         // Node: Relaxed here is fine. We do not synchronize any data through this, we already have
         // it synchronized in self.cache. We just want to check if it changed, if it did, the
         // load_full will be responsible for any synchronization needed.
+        verif_step!(CACHE_LOAD);
         let shared_ptr = self.arc_swap.ptr.load(Ordering::Relaxed);
         if cached_ptr != shared_ptr {
             self.cached = self.arc_swap.load_full();
